@@ -639,3 +639,83 @@ Section CertModel.
   Definition sshsig_validate_old := sshsig_validate_gen CERT_TYPE_ANY.
 
 End CertModel.
+
+(* ------------------------------------------------------------------------------------------ *)
+(* misc.parse_time: the time values accepted for valid_after / valid_before at certificate
+   generation and for valid-after= / valid-before= in allowed-signers lines.
+     int                       the value itself
+     \d{8,14} with optional Z  YYYYMMDD[HH[MM[SS]]] right-padded with '0' to 14 digits and read by
+                               strptime('%Y%m%d%H%M%S'); with Z it is that UTC instant, without Z
+                               it is local time (dt.timestamp() of a naive datetime)
+     'now' / [+-]interval      time.time() + interval
+   [off] is the number of seconds to add to a local civil time to obtain UTC (the process time
+   zone, fixed offset: POSIX TZ 'XXX+5' has off = 18000).  None = ValueError. *)
+
+Definition is_leap (y : Z) : bool :=
+  (y mod 4 =? 0) && (negb (y mod 100 =? 0) || (y mod 400 =? 0)).
+
+Definition days_in_month (y m : Z) : Z :=
+  if m =? 2 then (if is_leap y then 29 else 28)
+  else if (m =? 4) || (m =? 6) || (m =? 9) || (m =? 11) then 30 else 31.
+
+(* days since 1970-01-01 of a proleptic Gregorian date *)
+Definition days_from_civil (y m d : Z) : Z :=
+  let y' := if m <=? 2 then y - 1 else y in
+  let era := y' / 400 in
+  let yoe := y' - era * 400 in
+  let mp := if 2 <? m then m - 3 else m + 9 in
+  let doy := (153 * mp + 2) / 5 + d - 1 in
+  let doe := yoe * 365 + yoe / 4 - yoe / 100 + doy in
+  era * 146097 + doe - 719468.
+
+Definition is_digit (c : Z) : bool := (48 <=? c) && (c <=? 57).
+Definition num_of (ds : list Z) : Z := fold_left (fun a c => a * 10 + (c - 48)) ds 0.
+
+(* the UTC reading of the 14 padded digits *)
+Definition civil_seconds (ds : list Z) : option Z :=
+  if forallb is_digit ds && (8 <=? zlen ds) && (zlen ds <=? 14) then
+    let p := ds ++ repeat 48 (14 - length ds) in
+    let y := num_of (firstn 4 p) in
+    let mo := num_of (firstn 2 (skipn 4 p)) in
+    let d := num_of (firstn 2 (skipn 6 p)) in
+    let h := num_of (firstn 2 (skipn 8 p)) in
+    let mi := num_of (firstn 2 (skipn 10 p)) in
+    let sec := num_of (firstn 2 (skipn 12 p)) in
+    if (1 <=? y) && (1 <=? mo) && (mo <=? 12) && (1 <=? d) && (d <=? days_in_month y mo)
+       && (h <? 24) && (mi <? 60) && (sec <? 60)
+    then Some (days_from_civil y mo d * 86400 + h * 3600 + mi * 60 + sec)
+    else None
+  else None.
+
+Definition parse_time_abs (ds : list Z) (z : bool) (off : Z) : option Z :=
+  match civil_seconds ds with
+  | Some t => Some (if z then t else t + off)
+  | None => None
+  end.
+
+Inductive tspec := TInt (t : Z) | TAbs (ds : list Z) (z : bool) | TRel (delta : Z) | TBad.
+
+Definition parse_time (s : tspec) (off now : Z) : option Z :=
+  match s with
+  | TInt t => Some t
+  | TAbs ds z => parse_time_abs ds z off
+  | TRel d => Some (now + d)
+  | TBad => None
+  end.
+
+(* a validity window written as time values: limits parsed at [pnow] in a zone with offset [off],
+   then checked at [now].  0 = inside, 1 = outside, 2 = a limit does not parse (ValueError) *)
+Definition window_decision (va vb : option tspec) (off pnow now : Z) : Z :=
+  let lim (o : option tspec) : option (option Z) :=
+    match o with
+    | None => Some None
+    | Some s => match parse_time s off pnow with Some t => Some (Some t) | None => None end
+    end in
+  match lim va, lim vb with
+  | Some a, Some b =>
+      if match a with Some t => negb (now <? t) | None => true end
+         && match b with Some t => negb (t <=? now) | None => true end
+      then 0 else 1
+  | _, _ => 2
+  end.
+
